@@ -93,6 +93,7 @@ def main():
     print("model bugs that TLC must reject:")
     ok &= bug("RngIso", "RngIso_quick.cfg", [("BugGlobalFallback = FALSE", "BugGlobalFallback = TRUE")], "GlobalUntouched")
     ok &= bug("RngIso", "RngIso_quick.cfg", [("BugSharedInstance = FALSE", "BugSharedInstance = TRUE")], "Reproducible")
+    ok &= bug("RngIso", "RngIso_quick.cfg", [("BugCloneShares = FALSE", "BugCloneShares = TRUE")], "Isolated")
     ok &= bug("Purity", "Purity_quick.cfg", [("BugInPlace = FALSE", "BugInPlace = TRUE")], "ArgsUnchanged")
     ok &= bug("CovSched", "CovSched_quick.cfg", [("BugUnordered = FALSE", "BugUnordered = TRUE")], "SameAsSequential")
     ok &= bug("CovSched", "CovSched_quick.cfg", [("BugNoReset = FALSE", "BugNoReset = TRUE")], "NoCarryOver")
